@@ -689,6 +689,14 @@ theorem names_inherited_with_objects (rx : String → String → Bool) (op name 
     | some v => rfl
     | none => rfl
 
+/-- …and a Selector declaration specifies `names` exactly when it specifies `objects` (a dict gives
+the mapping, a list gives `{}`), so the two are inherited together. -/
+theorem names_specified_iff_objects (rx : String → String → Bool) (op name : Nat) (d : Decl) (own : Param)
+    (hT : d.ptype = .selector) (h : construct rx op name d = .ok own) :
+    (own.slots .names).isSome = (d.args .objects).isSome ∧
+      (own.slots .objects).isSome = (d.args .objects).isSome :=
+  construct_names_iff_objects rx op name d own hT h
+
 /-- `A: x = Selector(objects={'a': 1, 'b': 2})` -/
 def selA : Decl := mkDecl .selector [(.objects, ⟨.obj 1, .dict [("a", .int 1), ("b", .int 2)]⟩)]
 /-- `B(A): x = Selector(default=2)` -/
